@@ -1675,7 +1675,13 @@ class SiftConfig(collections.abc.MutableMapping):
     def from_yaml_stream(cls, stream):
         """Create and return a new SiftConfig object with options loaded from a yaml stream."""
         ret = cls()
-        ret.store = yaml.load(stream, Loader=yaml.FullLoader)
+        cfg = yaml.load(stream, Loader=yaml.FullLoader)
+        if isinstance(cfg, list):
+            # Text written by to_yaml_text: [{'sift_type': ...}, options]
+            ret.sift_type = cfg[0]['sift_type']
+            ret.store = cfg[1]
+        else:
+            ret.store = cfg
         return ret
 
     def get_func(self):
